@@ -96,7 +96,19 @@ impl CompactionWorker {
 
                 loop {
                     log::info!("Compaction thread waiting for tasks.");
-                    let channel_task = receiver.recv().unwrap();
+                    let channel_task = match receiver.recv() {
+                        Ok(task) => task,
+                        Err(_) => {
+                            // Every sender is gone without a termination command e.g. because
+                            // `DB::open` failed after this thread was started. There is nobody
+                            // left to work for.
+                            log::info!(
+                                "The task channel of the compaction thread was closed. Shutting \
+                                down the thread."
+                            );
+                            break;
+                        }
+                    };
                     task_queue.push_back(channel_task);
 
                     // FIXME: Just clone sender? Can the holder of the receiver also hold a clone of the sender?
